@@ -29,6 +29,7 @@ RULE = (
     'in ATOM or BOND block / trailing blanks): exact equality.  complex also: ligand alternate '
     'locations, two bound copies, titration route, serial numbers restarting, ligand residue named '
     'like a CHARMM het group.'
+    ' salt: one MOL2 record with several fragments that share no bond (1-2 generated fragments + 0-3 unbonded H / halogen atoms): conservation for the record and per fragment, every connected fragment gets exactly the charges it gets as a record of its own.'
 )
 ASSUMPTIONS = [
     "MOL2 encodings whose formal-charge convention is ambiguous (phosphates, N.pl3 in aromatic rings, 'am' bonds) are "
